@@ -139,8 +139,23 @@ def read_export(path: str) -> list[dict]:
                     v = json.loads(v)
             except json.JSONDecodeError as ex:
                 raise MachineryError(f"malformed export line in {path}: {ln[:200]}") from ex
-            res.append(v)
+            res.append(_unmark(v))
     return res
+
+
+_MARK = re.compile(r"~u([0-9a-fA-F]{4,6})~")
+
+
+def _unmark(v):
+    """TLA+ sources stay ASCII: a non-ASCII character is written ~uXXXX~ in a spec string and
+    restored here."""
+    if isinstance(v, str):
+        return _MARK.sub(lambda m: chr(int(m.group(1), 16)), v) if "~u" in v else v
+    if isinstance(v, list):
+        return [_unmark(x) for x in v]
+    if isinstance(v, dict):
+        return {k: _unmark(x) for k, x in v.items()}
+    return v
 
 
 def validate_traces(
